@@ -237,8 +237,57 @@ def _laws(ctx, repo) -> None:
         run(cname, "__eq__", "equality", body)
 
 
+class _FalsyList(list):
+    """An iterable that is falsy although it yields elements (as an array that holds 0 is)."""
+
+    def __bool__(self):
+        return False
+
+
+def _edges(ctx, repo) -> None:
+    """Operands whose own protocols differ from 'the elements they yield': a str / bytes (substring `in`), an iterable
+    that is falsy but not empty, and None as 'no elements'."""
+    from sa.engine import peval
+
+    mod = repo.module(MOD)
+    cres = peval.repo_class_resolver(repo)
+
+    def run(tag, body, anchor):
+        try:
+            problem = body()
+        except peval.Undecided as exc:
+            ctx.undecide("C34.edges", anchor, f"{tag}: {exc}")
+            return
+        except peval.Raises as exc:
+            problem = f"raises {exc.name} ({exc.detail[:60]})"
+        except (TypeError, ValueError) as exc:
+            problem = f"raises {type(exc).__name__} ({str(exc)[:60]})"
+        ctx.check("C34.edges", anchor, problem is None, f"{tag}: {problem}", what=tag, stmt=tag)
+
+    for cname in ("OrderedSet", "FrozenOrderedSet"):
+        sub = repo.methods(repo.cls(MOD, cname)).get("issubset") or repo.cls(MOD, cname)
+        ctor = repo.methods(repo.cls(MOD, "_AbstractOrderedSet")).get("__init__") or repo.cls(MOD, cname)
+        for base, operand in ((["ab"], "xaby"), ([""], "abc"), ([b"a"], b"abc"), (["a"], "abc"), (["a", "c"], "abc"), ([97], b"abc"), (["ab"], ["x", "ab"]), (["k"], {"k": 1})):
+            def body(base=base, operand=operand, cname=cname):
+                it = peval.Interp(resolver=peval.repo_resolver(repo), class_resolver=cres, max_steps=100000)
+                s = it.instantiate(cname, cres(cname, mod), [list(base)], {})
+                got = bool(s.methods["issubset"](operand))
+                want = set(base).issubset(operand)
+                return None if got == want else f"returns {got}, a set holding {base} answers {want} (only the elements the operand yields count; `in` on a str / bytes is a substring test)"
+            run(f"[{cname}.issubset] {base!r} against {operand!r}", body, sub)
+        for label, arg, want in (("a falsy iterable that yields 0, 1", _FalsyList([0, 1]), [0, 1]), ("None", None, []), ("an empty tuple", (), []), ("a list holding only 0", [0], [0])):
+            def body(arg=arg, want=want, cname=cname):
+                it = peval.Interp(resolver=peval.repo_resolver(repo), class_resolver=cres, max_steps=100000, native_types=(_FalsyList,))
+                s = it.instantiate(cname, cres(cname, mod), [arg], {})
+                got = list(s)
+                return None if got == want else f"holds {got}, expected {want}: elements of an iterable that happens to be falsy are lost"
+            run(f"[{cname}(...)] built from {label}", body, ctor)
+
+
 def check(ctx) -> None:
     repo = ctx.repo
+    ctx.rule("C34.edges", "ABSINT: issubset against str / bytes / dict operands counts the elements the operand yields (no substring semantics); the constructor keeps the elements of a falsy iterable and treats None as empty", floor=20)
+    _edges(ctx, repo)
     ctx.rule("C34.laws", "ABSINT: OrderedSet and FrozenOrderedSet, interpreted from source, agree with the insertion-ordered-set semantics for every operation x operand kind (list with duplicates, tuple, one-shot generator / iterator, builtin set, dict keys, ordered set, the set itself, empty; several operands) through iteration, len, membership, positive and negative indexing and reversed(), before and after in-place changes", floor=110)
     _laws(ctx, repo)
     ctx.rule("C34.once", "ONCE: an Iterable parameter is consumed at most once on every path unless it was materialised (set/tuple/dict.fromkeys/cls) or proven re-iterable (isinstance Collection)", floor=20)
